@@ -293,6 +293,20 @@ def run_case(spec):
                         viol("device_probe_points_do_not_map_with_shapes", {"op": nm, "origin": org if nm == "scale_origin" else None})
             d4 = dev.rotate(float(rng.uniform(-180, 180)))
             d5 = dev.translate(float(rng.uniform(-1, 1) * scale), float(rng.uniform(-1, 1) * scale))
+            # the layer belongs to the device: derived devices never share it with, or write through to, the original
+            cnt("device_layer_aliasing_checks")
+            lay0 = (dev.layer.z0, dev.layer.coherence_length, dev.layer.london_lambda, dev.layer.thickness)
+            d6 = dev.translate(0.1 * scale, 0.0, dz=0.7)
+            if abs(d6.layer.z0 - (lay0[0] + 0.7)) > 1e-12:
+                viol("device_translate_dz_not_applied", {"z0": d6.layer.z0})
+            for nm, dd_ in (("copy", d2), ("scale", d3), ("rotate", d4), ("translate", d5), ("translate_dz", d6)):
+                if dd_.layer is dev.layer:
+                    viol("derived_device_shares_layer", {"op": nm})
+            d2.layer.coherence_length = 2.5 * lay0[1]
+            d4.layer.z0 = lay0[0] - 3.0
+            now = (dev.layer.z0, dev.layer.coherence_length, dev.layer.london_lambda, dev.layer.thickness)
+            if now != lay0:
+                viol("device_transform_mutated_original", {"what": "layer", "before": lay0, "after": now})
             if not np.array_equal(dev.film.points, f0) or any(not np.array_equal(h.points, x) for h, x in zip(dev.holes, h0)):
                 viol("device_transform_mutated_original", {})
             for dd_, nm, fac in ((d3, "scale", abs(fx * fy)), (d4, "rotate", 1.0), (d5, "translate", 1.0)):
